@@ -738,5 +738,9 @@ func findIndexEntry(entries []*IndexEntry, offset int64) *IndexEntry {
 			hi = mid - 1
 		}
 	}
+	// The loop leaves hi on the last entry whose offset is below the target.
+	if hi >= 0 && hi < len(entries) {
+		return entries[hi]
+	}
 	return entries[0]
 }
